@@ -13,12 +13,12 @@ enum OpCode : uint16_t {
   // element -> ...
   OP_INVERSE = 0, OP_LOG, OP_COMPOSE, OP_BETWEEN, OP_RPLUS, OP_LPLUS, OP_PLUS,
   OP_RMINUS, OP_LMINUS, OP_MINUS, OP_ACT, OP_ADJ, OP_MUL, OP_ADD, OP_SUB,
-  OP_ISAPPROX, OP_EQ, OP_TRANSFORM, OP_ROTATION, OP_CASTRT, OP_COEFFS, OP_LIFT, OP_DATAPTR, OP_ACCESSORS, OP_CONSTRUCT,
+  OP_ISAPPROX, OP_EQ, OP_TRANSFORM, OP_ROTATION, OP_CASTRT, OP_COEFFS, OP_LIFT, OP_DATAPTR, OP_ACCESSORS, OP_CONSTRUCT, OP_STREAM,
   // tangent -> ...
   OP_EXP = 30, OP_HAT, OP_RJAC, OP_LJAC, OP_RJACINV, OP_LJACINV, OP_SMALLADJ,
   OP_INNER, OP_WNORM, OP_SQWNORM, OP_BRACKET, OP_TPLUS, OP_TMINUS,
   OP_T_RPLUS_X, OP_T_LPLUS_X, OP_T_PLUS_X, OP_T_ADD_X, OP_T_ISAPPROX, OP_T_NEG, OP_T_SCALE,
-  OP_T_ADD_T, OP_T_SUB_T, OP_T_GENERATOR_M, OP_T_INNERW_M, OP_RETRACT, OP_T_CASTRT, OP_JT_MUL, OP_T_ACCESSORS,
+  OP_T_ADD_T, OP_T_SUB_T, OP_T_GENERATOR_M, OP_T_INNERW_M, OP_RETRACT, OP_T_CASTRT, OP_JT_MUL, OP_T_ACCESSORS, OP_T_STREAM,
   // static helpers
   OP_IDENTITY = 60, OP_ZERO, OP_GENERATOR, OP_INNERWEIGHTS, OP_VEE, OP_BRACKET_S, OP_RANDOM, OP_T_RANDOM,
   // algorithms
